@@ -50,11 +50,11 @@ def bigDepth : Nat := 1000000
 /-- the reference oracle: ideal evaluation (no depth limit, subtract operands on a fresh path,
 swallowed errors reported) -/
 def oracle (w : World) : Out :=
-  Dfs.evalF (idealSys w) bigDepth { ideal := true } 6000 0 [] (rootExpr w)
+  Dfs.evalF (idealSys w) bigDepth { ideal := true } Dfs.noCache 6000 0 [] (rootExpr w)
 
 /-- same rules as the oracle but the code's `exclusion`: separates the two taint sources -/
 def oracleCodeExcl (w : World) : Out :=
-  Dfs.evalF (idealSys w) bigDepth {} 6000 0 [] (rootExpr w)
+  Dfs.evalF (idealSys w) bigDepth {} Dfs.noCache 6000 0 [] (rootExpr w)
 
 def isTrivial (w : World) : Bool :=
   match ruleOf w (w.req.obj, w.req.rel) with
